@@ -44,9 +44,10 @@ type c17Case struct {
 	CwdDir int `json:"cwd_dir,omitempty"`
 }
 
-var c17DirNames = []string{"foo", "foobar", "foo/bar", "ab1", "ab2", "a", "ab", "x/y", "x/yz", "models", "models2", "pkg/api", "pkg/apiserver"}
+var c17DirNames = []string{"x/API", "foo", "foobar", "foo/bar", "ab1", "ab2", "a", "ab", "x/y", "x/yz", "models", "models2", "pkg/api", "pkg/apiserver"}
 
-var c17Pairs = [][]string{{"foo", "foobar"}, {"ab1", "ab2"}, {"a", "ab"}, {"x/y", "x/yz"}, {"pkg/api", "pkg/apiserver"}, {"models", "models2"}, {"foo", "foo/bar"}, {"foo/bar", "foobar"}}
+var c17Pairs = [][]string{{"foo", "foobar"}, {"ab1", "ab2"}, {"a", "ab"}, {"x/y", "x/yz"}, {"pkg/api", "pkg/apiserver"}, {"models", "models2"}, {"foo", "foo/bar"}, {"foo/bar", "foobar"},
+	{"x/API", "x/api"}, {"Models", "models"}} // directories that differ only by case are different directories
 
 func c17Gen(t *rapid.T, r *h.Rec) c17Case {
 	var c c17Case
